@@ -515,8 +515,9 @@ def replay(c, rp):
     """re-run the deterministic parts (proofs, corpus, kernel enumeration, probes) and show the
     recorded failing inputs"""
     from .translate import gen_update_bounds
+    from .translate_c04 import gen_hard_constraint
 
-    c.prove(extra=gen_update_bounds(c))  # + update_bounds translated from the source on every run
+    c.prove(extra=gen_update_bounds(c) + gen_hard_constraint(c))  # + kernels translated from the source on every run
     for f in rp.get("failures", []) + rp.get("correspondence_disagreements", []):
         print("recorded:", f["what"])
     run_corpus(c)
@@ -548,8 +549,9 @@ def run(c):
         "scale_by_problem_size is off in the keep_soft / single-pass objective oracle",
     ]
     from .translate import gen_update_bounds
+    from .translate_c04 import gen_hard_constraint
 
-    c.prove(extra=gen_update_bounds(c))  # + update_bounds translated from the source on every run
+    c.prove(extra=gen_update_bounds(c) + gen_hard_constraint(c))  # + kernels translated from the source on every run
     run_corpus(c)
     C4.stream_update_bounds(c)
     stream_main(c, c.n(200, 3000))
